@@ -62,12 +62,28 @@ def value_pool():
                        ('tag_num', {'t': 2, 'c': {'y': [1, 2]}})):
         out.append((('dc', leaf, data), leaf, 'tagged'))
         out.append((('dc', ['list', leaf], [data, data]), ['list', leaf], 'tagged'))
+    # a declared type that is a SUBCLASS of str (what is written must still be plain text the dumpers know)
+    out.append((('dc', ('obj', 'substr'), 'host-é'), ('obj', 'substr'), 'str subclass'))
+    out.append((('dc', ('obj', 'list_substr'), ['a', 'b']), ('obj', 'list_substr'), 'str subclass'))
+    out.append((('dc', ('obj', 'dict_substr_key'), {'k': 1}), ('obj', 'dict_substr_key'), 'str subclass'))
+    out.append((('dc', ('obj', 'dc_substr'), {'name': 'alpha.example', 'n': 2}), ('obj', 'dc_substr'), 'str subclass'))
     return out
+
+
+_OBJ: t.Dict[str, t.Any] = {}
+
+
+def _obj_type(pane, name):
+    if not _OBJ:
+        S = grammar.SubStr
+        _OBJ.update(substr=S, list_substr=grammar.pin(t.List[S]), dict_substr_key=grammar.pin(t.Dict[S, int]),
+                    dc_substr=grammar.pin(type('HostRec', (pane.PaneBase,), {'__annotations__': {'name': S, 'n': int}, '__module__': 'mc.generated'})))
+    return _OBJ[name]
 
 
 def materialise(pane, entry):
     v, ty, label = entry
-    T = grammar.build(ty)
+    T = _obj_type(pane, ty[1]) if isinstance(ty, tuple) and ty[0] == 'obj' else grammar.build(ty)
     if isinstance(v, tuple) and len(v) == 3 and v[0] == 'dc':
         v = pane.from_data(values.fresh(v[2]), T)
     return v, T, label
